@@ -78,9 +78,13 @@ func exprObs(expr string, d interface{}, opts ...bexpr.Option) (o string) {
 }
 
 func parseTree(expr string) (grammar.Expression, bool) {
-	ast, err := grammar.Parse("", []byte(expr))
+	buf := []byte(expr)
+	ast, err := grammar.Parse("", buf)
 	if err != nil || ast == nil {
 		return nil, false
+	}
+	for i := range buf { // the buffer is the caller's to re-use
+		buf[i] = 'Z'
 	}
 	e, ok := ast.(grammar.Expression)
 	return e, ok
@@ -106,7 +110,16 @@ func parseObs(b []byte, budget uint64) (o string) {
 			return fmt.Sprintf("A %d NOTEXPR", n)
 		}
 		var pats []string
-		return fmt.Sprintf("A %d %s", n, sExpr(e, &pats))
+		tree := sExpr(e, &pats)
+		// the caller re-uses its buffer: the tree it was given must not change
+		for i := range b {
+			b[i] = 'Z'
+		}
+		var pats2 []string
+		if again := sExpr(e, &pats2); again != tree {
+			return fmt.Sprintf("A %d TREE-ALIASES-THE-INPUT-BUFFER %s", n, again)
+		}
+		return fmt.Sprintf("A %d %s", n, tree)
 	}
 	mx := 0
 	if strings.Contains(err.Error(), "max number of expresssions parsed") {
